@@ -4,4 +4,5 @@ set -e
 /verif/engines/build.sh rel-small >/dev/null 2>&1 || { /verif/engines/build.sh rel-small | tail -30; exit 1; }
 /verif/engines/build.sh dwmc >/dev/null 2>&1 || { /verif/engines/build.sh dwmc | tail -30; exit 1; }
 /verif/engines/build.sh ocmc >/dev/null 2>&1 || { /verif/engines/build.sh ocmc | tail -30; exit 1; }
+/verif/engines/build.sh asan-small >/dev/null 2>&1 || echo "note: ASan build failed (C11 will run without it)"
 echo "setup ok"
